@@ -118,6 +118,104 @@ func runImpl(tmpl string) (o implOut) {
 	return
 }
 
+func probeFor(name string) expressions.KeyBuilderFunction {
+	if name == "g2" {
+		return probe("g2", 2)
+	}
+	return probe(name, -1)
+}
+
+// runSeq compiles the templates one after another on the same two KeyBuilders (optimising, plain),
+// evaluates each compiled expression right after its compile and once more after the whole sequence
+func runSeq(steps []seqStep) []implOut {
+	kbs := [2]*expressions.KeyBuilder{newBuilder(true), newBuilder(false)}
+	outs := make([]implOut, len(steps))
+	ckbs := make([][2]*expressions.CompiledKeyBuilder, len(steps))
+	first := make([][2]string, len(steps))
+	for k, st := range steps {
+		rs := make([]rune, len(st.Template))
+		for i, x := range st.Template {
+			rs[i] = rune(x)
+		}
+		tmpl := string(rs)
+		func() {
+			defer func() {
+				if e := recover(); e != nil {
+					outs[k] = implOut{Panic: true, Note: fmt.Sprint(e)}
+				}
+			}()
+			var errs [2][][2]int
+			for m := 0; m < 2; m++ {
+				if st.Reg != "" {
+					kbs[m].Func(st.Reg, probeFor(st.Reg))
+				}
+				ckb, cerr := kbs[m].Compile(tmpl)
+				if cerr != nil {
+					for _, e := range cerr.Errors {
+						errs[m] = append(errs[m], [2]int{errKind(e.Err), e.Index})
+					}
+				}
+				if ckb == nil {
+					panic("Compile returned a nil builder")
+				}
+				ckbs[k][m] = ckb
+				first[k][m] = ckb.BuildKey(probeCtx{})
+			}
+			o := implOut{Out: toInts(first[k][0]), OutNoOpt: toInts(first[k][1]), OutText: first[k][0], Errs: errs[0]}
+			if fmt.Sprint(errs[0]) != fmt.Sprint(errs[1]) {
+				o.Errs = append(o.Errs, [2]int{99, 0})
+				o.Note = "error lists of the optimising and the plain builder differ"
+			}
+			outs[k] = o
+		}()
+	}
+	for k := range steps {
+		if outs[k].Panic {
+			continue
+		}
+		func() {
+			defer func() {
+				if e := recover(); e != nil {
+					outs[k] = implOut{Panic: true, Note: "late evaluation: " + fmt.Sprint(e)}
+				}
+			}()
+			for m := 0; m < 2; m++ {
+				if late := ckbs[k][m].BuildKey(probeCtx{}); late != first[k][m] {
+					outs[k].Errs = append(outs[k].Errs, [2]int{98, 0})
+					outs[k].Note += " evaluation after the later compiles differs: " + late
+				}
+			}
+		}()
+	}
+	return outs
+}
+
+func seqCases(steps []seqStep, only int, extraTags ...string) []Case {
+	outs := runSeq(steps)
+	var cases []Case
+	for k, st := range steps {
+		if only >= 0 && k != only {
+			continue
+		}
+		rs := make([]rune, len(st.Template))
+		for i, x := range st.Template {
+			rs[i] = rune(x)
+		}
+		tags := append([]string{fmt.Sprintf("seq-pos=%d", k)}, extraTags...)
+		if st.Reg != "" {
+			tags = append(tags, "seq-func-registration")
+		}
+		for j := 0; j < k; j++ {
+			if steps[j].Text == st.Text {
+				tags = append(tags, "seq-same-template-again")
+				break
+			}
+		}
+		cases = append(cases, mkCaseOut("sequence/"+st.Kind, st.Claim, rs, outs[k], steps[:k+1], k, tags...))
+	}
+	return cases
+}
+
 // ---------------------------------------------------------------- concrete syntax trees (mirror of Model/TmplPrint.v)
 
 type cpiece struct {
@@ -217,6 +315,18 @@ type c09In struct {
 	Template []int  `json:"template_runes"`
 	Text     string `json:"template_text"`
 	Claim    string `json:"claim_coq"` // Coq term of type TmplPrint.claim
+	// sequence cases: the templates compiled one after another on ONE KeyBuilder (per optimisation mode);
+	// this case observes compile number Index of it; the model is still a function of this template alone
+	Seq   []seqStep `json:"sequence,omitempty"`
+	Index int       `json:"sequence_index,omitempty"`
+}
+
+type seqStep struct {
+	Kind     string `json:"kind"`
+	Template []int  `json:"template_runes"`
+	Text     string `json:"template_text"`
+	Claim    string `json:"claim_coq"`
+	Reg      string `json:"register_before,omitempty"` // KeyBuilder.Func(name, probe) called before this compile
 }
 
 func isSyntax(r rune) bool { return r == '\\' || r == '{' || r == '}' || r == '"' }
@@ -247,10 +357,13 @@ func inTrailingBackslashDomain(rs []rune) bool {
 }
 
 func mkCase(kind, claim string, tmplRunes []rune, extraTags ...string) Case {
+	return mkCaseOut(kind, claim, tmplRunes, runImpl(string(tmplRunes)), nil, 0, extraTags...)
+}
+
+func mkCaseOut(kind, claim string, tmplRunes []rune, out implOut, seq []seqStep, index int, extraTags ...string) Case {
 	tmpl := string(tmplRunes)
 	rs := []rune(tmpl) // what Compile sees (invalid code points become U+FFFD)
-	in := c09In{Kind: kind, Template: toInts(tmpl), Text: tmpl, Claim: claim}
-	out := runImpl(tmpl)
+	in := c09In{Kind: kind, Template: toInts(tmpl), Text: tmpl, Claim: claim, Seq: seq, Index: index}
 	var coq string
 	if out.Panic {
 		coq = fmt.Sprintf("cP (%s) %s", claim, coqRunes(rs))
@@ -304,7 +417,7 @@ func mkCase(kind, claim string, tmplRunes []rune, extraTags ...string) Case {
 		tags = append(tags, "kf:C09-trailing-backslash")
 	}
 	tags = append(tags, extraTags...)
-	kb, _ := json.Marshal([]any{claim, in.Template})
+	kb, _ := json.Marshal([]any{claim, in.Template, seq, index})
 	return Case{Coq: coq, Desc: map[string]any{"input": in, "impl": out}, Key: string(kb),
 		Nontrivial: classes >= 2, Tags: tags}
 }
@@ -524,6 +637,70 @@ func spaceCase() Case {
 		Tags: []string{"kind=space-table"}}
 }
 
+var seqBadArgs = []string{"{nosuch x}", "{}", "{ }", "a{}", "{f9 1 2}", "{f1 {nosuch 1}}", "{f1 {}}", "x{nofn a}{}", "{f2 a {} {nosuch b}}"}
+var seqGoodArgs = []string{"{0}", "abc", "{f1 a}", "{k}", "{f2 {1} b}", "7", "{f3 {f1 {0}}}"}
+var seqQuotedBad = []string{`"\{0"`, `"a \{f1 b"`, `"{nosuch x} y"`, `"{} "`}
+
+func mkStep(kind, claim string, rs []rune) seqStep {
+	t := string(rs)
+	return seqStep{Kind: kind, Template: toInts(t), Text: t, Claim: claim}
+}
+
+// 2..6 templates for one KeyBuilder: the same template twice, different templates sharing an argument
+// text (malformed or well-formed), malformed between well-formed ones, Func() registrations in between
+func genSeq(r *Rng) []seqStep {
+	focus := []string{Pick(r, seqBadArgs)}
+	if r.Chance(1, 2) {
+		focus = append(focus, Pick(r, seqGoodArgs))
+	}
+	if r.Chance(1, 4) {
+		focus = append(focus, Pick(r, seqBadArgs))
+	}
+	n := r.Range(2, 6)
+	var steps []seqStep
+	for len(steps) < n {
+		var st seqStep
+		switch x := r.Intn(20); {
+		case x < 5 && len(steps) > 0: // an earlier template again
+			st = steps[r.Intn(len(steps))]
+			st.Reg = ""
+		case x < 13: // {f x} after a printed tree, x one of the shared argument texts: exact errors claimed
+			var t []cpiece
+			if r.Chance(1, 2) {
+				t = genTmpl(r, 2)
+			}
+			f := []rune(Pick(r, probeNames))
+			xarg := []rune(Pick(r, focus))
+			s := append(append(printBody(t), '{'), f...)
+			s = append(append(append(s, ' '), xarg...), '}')
+			st = mkStep("shared-argument", fmt.Sprintf("KArg %s %s %s", coqBody(t), coqRunes(f), coqRunes(xarg)), s)
+		case x < 16: // several arguments, the shared ones among them (also quoted, with an escaped brace)
+			s := []rune("{" + Pick(r, probeNames))
+			for k := r.Range(1, 3); k > 0; k-- {
+				switch y := r.Intn(4); {
+				case y < 2:
+					s = append(s, []rune(" "+Pick(r, focus))...)
+				case y == 2:
+					s = append(s, []rune(" "+Pick(r, seqQuotedBad))...)
+				default:
+					s = append(s, []rune(" "+Pick(r, seqGoodArgs))...)
+				}
+			}
+			st = mkStep("several-arguments", "KRaw", append(s, '}'))
+		case x < 18: // a well-formed tree
+			t := genTmpl(r, 3)
+			st = mkStep("tree", "KTree "+coqBody(t), printBody(t))
+		default: // a mutated tree
+			st = mkStep("mutation", "KRaw", mutate(r, printBody(genTmpl(r, 3))))
+		}
+		if len(steps) > 0 && r.Chance(1, 6) {
+			st.Reg = Pick(r, []string{"f0", "f1", "f2", "f3", "g2", "z9z9"})
+		}
+		steps = append(steps, st)
+	}
+	return steps
+}
+
 func exhaustive(L int) []Case {
 	alpha := []rune{'{', '}', '"', '\\', ' ', 'a', '1'}
 	var cases []Case
@@ -557,6 +734,20 @@ func c09Gen(r *Rng, n int, tier string) []Case {
 	for _, t := range []string{`abc\`, `{f0 {f1 a}b}`, `{+1}{01}{1x}`, `{f0 a\ b}`, `{f0 "a}b" c}`, `{f0 "" a}`, `{}`, `{ }`,
 		`{f0 {} x}`, `a{f0 {f1 {nofn 1 2}} {`, `{f0 a\\\\}`, `{"1"}{""}{"a b"}`, `{f0 a"b c"}`, `{f0 "a""b"}`, `{g2 a}`, `{g2 {} b c}`} {
 		cases = append(cases, mkCase("seed", "KRaw", []rune(t)))
+	}
+	for _, sq := range [][]string{
+		{"{f0 a {nosuch x}}", "{f0 a {nosuch x}}"},
+		{"{f0 a {nosuch x}}", "value: {f0 {0} {nosuch x}}"},
+		{"{f0 {} b}", "{f0 {1} {}}"},
+		{`{f0 a "\{0"}`, `{f0 b "\{0"}`},
+		{"{f0 {f1 {nosuch 1 2}}}", "{f0 x {f1 {nosuch 1 2}} y}"},
+		{"{f0 {0}}", "{f1 {nosuch x} {0}}", "{f0 {0}}", "{f2 {nosuch x}}"},
+	} {
+		var steps []seqStep
+		for _, t := range sq {
+			steps = append(steps, mkStep("fixed", "KRaw", []rune(t)))
+		}
+		cases = append(cases, seqCases(steps, -1, fmt.Sprintf("seq-len=%d", len(steps)))...)
 	}
 	base := len(cases)
 	for len(cases) < base+n {
@@ -615,6 +806,9 @@ func c09Gen(r *Rng, n int, tier string) []Case {
 			s = append(append(append(s, ' '), lit...), '{')
 			s = append(append(s, w...), '}', '}')
 			cases = append(cases, mkCase("nested-error", fmt.Sprintf("KNested %s %s %s %s", coqBody(t), coqRunes(f), coqRunes(lit), coqRunes(w)), s))
+		case x < 80:
+			steps := genSeq(r)
+			cases = append(cases, seqCases(steps, -1, fmt.Sprintf("seq-len=%d", len(steps)))...)
 		case x < 93:
 			t := genTmpl(r, depth)
 			cases = append(cases, mkCase("mutation", "KRaw", mutate(r, printBody(t))))
@@ -636,7 +830,8 @@ func main() {
 		Header: "From Coq Require Import List NArith.\nFrom RareV Require Import Model.Tmpl Model.TmplPrint Corr.C09Case.\nImport ListNotations.\nOpen Scope N_scope.\n",
 		Rule: "1 table case (unicode.IsSpace on every rune < 0x3100 + sample of the other planes vs Model/IsSpace.v); exhaustive small scope (every string of length <= 3 (quick) / 4 (thorough) over { } \" \\ space a 1); " +
 			"16 fixed templates; then seeded random: 45% concrete syntax trees of depth <= 4 (calls of probes f0..f3/g2, group and key look-ups incl. Atoi edge spellings, literals over a pool with NUL, non-ASCII and astral runes) printed with a random admissible layout (Unicode white-space runs, quoted/bare items, empty quoted argument) claimed to evaluate as the tree dictates; " +
-			"10% escaped renderings of random strings over the full rune range (round trip); 20% error shapes (empty statement, unterminated statement, unknown function, empty statement inside an argument: re-based offset) around printed trees with the exact error list claimed; 18% mutations (delete/insert/swap/replace a brace, quote, backslash or space) of printed trees; 7% random strings over a syntax-heavy alphabet. " +
+			"10% escaped renderings of random strings over the full rune range (round trip); 20% error shapes (empty statement, unterminated statement, unknown function, empty statement inside an argument: re-based offset) around printed trees with the exact error list claimed; 13% mutations (delete/insert/swap/replace a brace, quote, backslash or space) of printed trees; 7% random strings over a syntax-heavy alphabet. " +
+			"13% of the random draws are SEQUENCES: 2..6 templates compiled one after another on the same KeyBuilder (the same template twice; different templates sharing a malformed or well-formed argument text, claimed with the exact re-based error list of C09_err_rebase; malformed between well-formed; quoted arguments with an escaped brace; Func() re-registrations in between), each compile compared with the model of that template alone and evaluated both at once and after the whole sequence; 6 fixed sequences. " +
 			"Observables: BuildKey output against the recording context with the optimising and the plain builder, compile errors (kind, rune offset); a panic is an observable. " +
 			"distinct = distinct (claim, template); non-trivial = at least two of: brace, quote, backslash, white space other than U+0020, nesting >= 2, nesting >= 3, non-ASCII, empty quoted item, compile error.",
 		Gen: c09Gen,
@@ -649,6 +844,13 @@ func main() {
 			}
 			if doc.Input.Kind == "space-table" {
 				return spaceCase(), nil
+			}
+			if len(doc.Input.Seq) > 0 {
+				cs := seqCases(doc.Input.Seq, doc.Input.Index)
+				if len(cs) != 1 {
+					return Case{}, fmt.Errorf("sequence_index %d out of range", doc.Input.Index)
+				}
+				return cs[0], nil
 			}
 			rs := make([]rune, len(doc.Input.Template))
 			for i, x := range doc.Input.Template {
